@@ -46,7 +46,7 @@ fn smb1_negotiate(layout: u8) {
     d[0] = 0; d[1] = 0;
     d[4] = 0xff; d[5] = b'S'; d[6] = b'M'; d[7] = b'B';
     d[8] = 0x72;
-    d[13] &= 0x7f; // request
+    let is_response = d[13] & 0x80 != 0; // reply flag symbolic: a COMPLETE message marked as a response must not be answered
     let x: u8 = kani::any();
     let y: u8 = kani::any();
     kani::assume(x != 0 && y != 0 && x < 0x80 && y < 0x80);
@@ -63,7 +63,13 @@ fn smb1_negotiate(layout: u8) {
     let bc = at - 39;
     d[36] = kani::any(); // WordCount (not interpreted)
     d[37] = bc as u8; d[38] = 0;
-    let r = match repl_smb1(&d[..at], &ms(), &ClientInfo::new(), None) {
+    let r = repl_smb1(&d[..at], &ms(), &ClientInfo::new(), None);
+    if is_response {
+        assert!(r.is_none(), "C12/C17: complete SMB1 message carrying the reply flag answered");
+        kani::cover!(true, "C12 complete smb1 response ignored");
+        return;
+    }
+    let r = match r {
         Some(r) => r,
         None => { assert!(false, "C17: SMB1 Negotiate request not answered"); return; }
     };
@@ -88,11 +94,16 @@ fn smb1_session_setup(bl: usize) {
     d[0] = 0; d[1] = 0;
     d[4] = 0xff; d[5] = b'S'; d[6] = b'M'; d[7] = b'B';
     d[8] = 0x73;
-    d[13] &= 0x7f;
+    let is_response = d[13] & 0x80 != 0;
     // body: WordCount(1) AndX(1) Res(1) AndXOff(2) MaxBuf(2) MaxMpx(2) Vc(2) SessKey(4) SecLen(2) Res(4) Caps(4) ByteCount(2)
     d[36 + 15] = bl as u8; d[36 + 16] = 0;
     let n = 36 + 27 + bl;
-    let r = match repl_smb1(&d[..n], &ms(), &ClientInfo::new(), None) {
+    let r = repl_smb1(&d[..n], &ms(), &ClientInfo::new(), None);
+    if is_response {
+        assert!(r.is_none(), "C12/C17: complete SMB1 message carrying the reply flag answered");
+        return;
+    }
+    let r = match r {
         Some(r) => r,
         None => { assert!(false, "C17: SMB1 Session-Setup request not answered"); return; }
     };
@@ -139,12 +150,17 @@ fn smb2_negotiate() {
     d[0] = 0; d[1] = 0;
     d[4] = 0xfe; d[5] = b'S'; d[6] = b'M'; d[7] = b'B';
     d[16] = 0; d[17] = 0; // command NEGOTIATE
-    d[20] &= 0xfe; // request
+    let is_response = d[20] & 1 != 0; // all 32 flag bits symbolic
     d[68 + 2] = 2; d[68 + 3] = 0; // DialectCount = 2
     let d0 = le16(&d[104..106]) as u16;
     let d1 = le16(&d[106..108]) as u16;
     kani::assume(d0 != d1);
     let r = repl_smb2(&d[..108], &ms(), &ClientInfo::new(), None);
+    if is_response {
+        assert!(r.is_none(), "C12/C17: complete SMB2 message carrying the response flag answered");
+        kani::cover!(d[20] != 1, "C12 complete smb2 response with further flag bits ignored");
+        return;
+    }
     let supported = |x: u16| x == 0x0202 || x == 0x0210 || x == 0x02ff || x == 0x0300 || x == 0x0302 || x == 0x0310 || x == 0x0311;
     match r {
         Some(r) => {
@@ -174,11 +190,16 @@ fn smb2_session_setup(bl: usize) {
     d[0] = 0; d[1] = 0;
     d[4] = 0xfe; d[5] = b'S'; d[6] = b'M'; d[7] = b'B';
     d[16] = 1; d[17] = 0; // command SESSION_SETUP
-    d[20] &= 0xfe;
+    let is_response = d[20] & 1 != 0;
     // body: StructureSize(2) Flags(1) SecMode(1) Caps(4) Channel(4) SecOff(2) SecLen(2) PrevSession(8)
     d[68 + 14] = bl as u8; d[68 + 15] = 0;
     let n = 68 + 24 + bl;
-    let r = match repl_smb2(&d[..n], &ms(), &ClientInfo::new(), None) {
+    let r = repl_smb2(&d[..n], &ms(), &ClientInfo::new(), None);
+    if is_response {
+        assert!(r.is_none(), "C12/C17: complete SMB2 message carrying the response flag answered");
+        return;
+    }
+    let r = match r {
         Some(r) => r,
         None => { assert!(false, "C17: SMB2 Session-Setup request not answered"); return; }
     };
@@ -220,7 +241,7 @@ fn c17_smb1_negotiate_xy() {
 }
 
 //# harness: c17_smb1_negotiate_xy_nt
-//# props: C17 C01 C19
+//# props: C17 C12 C01 C19
 //# tier: quick
 //# encodes: proto::smb::repl_smb1, NBTSession::{parse,repl}, SMB1Header::{parse,repl,get_payload}, SMB1NegotiateRequest::{parse,repl}, SMB1SessionSetupRequest::{parse,repl}, PacketDissector
 //# bounds: as above with dialect list [unknown 2-character dialect, NT LM 0.12]
@@ -274,7 +295,7 @@ fn c17_smb1_gate() {
 }
 
 //# harness: c17_smb2_negotiate
-//# props: C17 C01 C19
+//# props: C17 C12 C01 C19
 //# tier: quick
 //# encodes: proto::smb::repl_smb2, NBTSession::{parse,repl}, SMB2Header::{parse,repl,get_payload}, SMB2NegotiateRequest::{parse,repl}, SMB2SessionSetupRequest::{parse,repl}, PacketDissector
 //# bounds: NetBIOS + SMB2 header (all ids symbolic, command 0, request) + Negotiate body with every field symbolic, DialectCount 2 and two arbitrary distinct dialect revisions (65536 x 65535 pairs)
